@@ -1,7 +1,9 @@
 #!/bin/bash
-# run all 20 quick checks without writing evidence; print one line per property
+# run all 20 quick checks without writing evidence; one line per property, then the list of checks whose exit is not 0
 cd /verif
+rm -f /tmp/aq_rc.txt
 for i in 01 02 03 04 05 06 07 08 09 10 11 12 13 14 15 16 17 18 19 20; do
-  ( QV_NO_EVIDENCE=1 ./check C$i > /tmp/aq_C$i.txt 2>&1; echo "C$i rc=$? $(grep -c '^FINDING' /tmp/aq_C$i.txt) findings $(grep -c '^KNOWN-FINDING' /tmp/aq_C$i.txt) known $(grep '^ANALYSIS' /tmp/aq_C$i.txt | cut -c1-150)" ) &
+  ( QV_NO_EVIDENCE=1 ./check C$i > /tmp/aq_C$i.txt 2>&1; rc=$?; echo "C$i rc=$rc $(grep -c '^FINDING' /tmp/aq_C$i.txt) findings $(grep -c '^KNOWN-FINDING' /tmp/aq_C$i.txt) known $(grep '^ANALYSIS' /tmp/aq_C$i.txt | cut -c1-150)"; [ $rc -ne 0 ] && echo "C$i" >> /tmp/aq_rc.txt ) &
 done
 wait
+if [ -s /tmp/aq_rc.txt ]; then echo "NONZERO-EXIT: $(sort /tmp/aq_rc.txt | tr '\n' ' ')"; else echo "ALL-EXIT-0"; fi
